@@ -344,6 +344,13 @@ pub fn observe(m: &mut Mdl, c: &Call, r: &mut Rules, w: usize) {
         CallKind::Recv { ap: None, .. } => {}
     }
 
+    // the marks of "the session before this CONNECT" are spent once the CONNACK has decided about it (kept any
+    // longer they would only split states that have the same futures)
+    if m.st == St::Connected && pre.st != St::Connected {
+        m.old_ids.clear();
+        m.old_q2.clear();
+    }
+
     // ---- effects of transmitted packets, whichever call transmitted them
     let mut first_send = true;
     for e in &c.evs {
@@ -1117,8 +1124,13 @@ fn on_recv(m: &mut Mdl, pre: &Mdl, ap: &AP, frame: &[u8], c: &Call, r: &mut Rule
                 m.peer_disc = true;
                 if let AP::Disconnect { props: Some(p), .. } = ap {
                     if let Some(v) = prop_u32(p, 0x11) {
-                        m.persistent = v != 0 && m.persistent;
-                        r.label("session.expiry-in-disconnect");
+                        if m.as_client {
+                            // not the server's to decide
+                            r.label("session.expiry-in-disconnect-from-server");
+                        } else {
+                            m.persistent = v != 0 && m.persistent;
+                            r.label("session.expiry-in-disconnect");
+                        }
                     }
                 }
             }
